@@ -1,8 +1,8 @@
 CHECK = {
     "gen": [{"pkg": "extract_c11", "out": "lean/ClusterVerif/Gen/C11.lean"}],
-    "suites": [suite("routes", "c11", 1500, 60000, stdin=True),
-               suite("client", "c11", 600, 20000, stdin=True, args=["-suite", "client"]),
-               suite("add", "c11", 500, 15000, stdin=True, args=["-suite", "add"])],
+    "suites": [suite("routes", "c11", 6000, 250000, stdin=True),
+               suite("client", "c11", 2500, 60000, stdin=True, args=["-suite", "client"]),
+               suite("add", "c11", 1500, 40000, stdin=True, args=["-suite", "add"])],
     "lean_sources": ["ClusterVerif/Model/Pin.lean", "ClusterVerif/Model/C11.lean", "ClusterVerif/Spec/C11.lean",
                      "ClusterVerif/Gen/C11.lean", "ClusterVerif/Lemmas/C11.lean"],
     "rule": "routes suite: a fixed systematic sweep (every route template and 14 unknown paths x 7 methods x each path part valid/invalid x 10 credential situations; "
